@@ -433,3 +433,52 @@ func c09AfterMalformed(c *Ctx) {
 	}
 	c.Count(id, true, "stream:after-malformed")
 }
+
+// platformProbe runs harness/cmd/<prog> (a self-checking program: one line per check, ending in "ok" or "FAIL …") on the
+// host, for GOARCH=386 and — when node is installed — for js/wasm: no line fails anywhere, and every platform prints what
+// the host prints.
+func platformProbe(c *Ctx, who, prog string) {
+	id := "platform-probe#" + prog
+	if c.Skip(id) {
+		return
+	}
+	goroot, _ := exec.Command("go", "env", "GOROOT").Output()
+	wasmExec := filepath.Join(strings.TrimSpace(string(goroot)), "misc", "wasm", "go_js_wasm_exec")
+	if _, err := os.Stat(wasmExec); err != nil {
+		wasmExec = filepath.Join(strings.TrimSpace(string(goroot)), "lib", "wasm", "go_js_wasm_exec")
+	}
+	platforms := [][]string{{"host"}, {"386", "GOARCH=386"}}
+	if _, err := exec.LookPath("node"); err == nil {
+		platforms = append(platforms, []string{"js/wasm", "GOOS=js", "GOARCH=wasm"})
+	}
+	var host []string
+	for _, p := range platforms {
+		args := []string{"run"}
+		if p[0] == "js/wasm" {
+			args = append(args, "-exec", wasmExec)
+		}
+		cmd := exec.Command("go", append(args, "./cmd/"+prog)...)
+		cmd.Dir = filepath.Join(c.VerifDir, "harness")
+		cmd.Env = append(append(os.Environ(), "GOFLAGS=-mod=mod", "GOPROXY=off", "GOSUMDB=off", "GOTOOLCHAIN=local", "CGO_ENABLED=0"), p[1:]...)
+		out, err := cmd.CombinedOutput()
+		if err != nil {
+			c.Mismatch("platform-probe", id, "cmd/"+prog+" built for "+p[0], "builds and runs", trunc(string(out), 300))
+			continue
+		}
+		lines := strings.Split(strings.TrimSpace(string(out)), "\n")
+		for k, l := range lines {
+			if !strings.HasSuffix(l, " ok") {
+				c.Violate(who+": "+prog+" check fails on a platform the library is built for", id, map[string]string{"platform": p[0], "reproduce": strings.Join(p[1:], " ") + " go run ./cmd/" + prog + " (in /verif/harness)"}, "ok", trunc(l, 200))
+				break
+			}
+			if host != nil && (k >= len(host) || host[k] != l) {
+				c.Violate(who+": "+prog+" prints something else on another platform", id, map[string]string{"platform": p[0]}, trunc(host[min(k, len(host)-1)], 160), trunc(l, 160))
+				break
+			}
+		}
+		if p[0] == "host" {
+			host = lines
+		}
+		c.Count(id+p[0], true, "stream:platform-probe", "platform-probe:"+p[0])
+	}
+}
